@@ -942,27 +942,33 @@ bool qlisttbl_save(qlisttbl_t *tbl, const char *filepath, char sepchar,
         return false;
     }
 
+    bool ok = true;
     char *gmtstr = qtime_gmt_str(0);
-    qio_printf(fd, -1, "# %s %s\n", filepath, gmtstr);
+    if (qio_printf(fd, -1, "# %s %s\n", filepath, gmtstr) < 0) {
+        ok = false;
+    }
     free(gmtstr);
 
-    bool ok = true;
     qlisttbl_lock(tbl);
     qlisttbl_obj_t *obj;
     for (obj = tbl->first; obj; obj = obj->next) {
         char *encval;
         if (encode == true) encval = qurl_encode(obj->data, obj->size);
         else encval = obj->data;
-        // an entry that could not be encoded or written makes the save fail
+        // an entry that could not be encoded or written completely (full
+        // disk, file size limit: a short write) makes the save fail
         if (encval == NULL
-            || qio_printf(fd, -1, "%s%c%s\n", obj->name, sepchar, encval) < 0) {
+            || qio_printf(fd, -1, "%s%c%s\n", obj->name, sepchar, encval)
+               != (ssize_t) (strlen(obj->name) + 1 + strlen(encval) + 1)) {
             ok = false;
         }
         if (encode == true) free(encval);
     }
     qlisttbl_unlock(tbl);
 
-    close(fd);
+    if (close(fd) != 0) {
+        ok = false;
+    }
     return ok;
 }
 
